@@ -10,7 +10,7 @@ SCHEDULE_DEPENDENT = True
 RULE = ('the real ActiveFabricSource with both delivery threads; 2-5 subscriber queues (plain deques and LockingDeques, '
         'several distinct queues with equal contents: all empty or holding the same events), 1-3 client threads issuing '
         '3-25 subscribe/publish calls (re-subscription in every position, both kinds on one queue, int and Event forms of '
-        'the signal) interleaved with the delivery threads by a seeded scheduler (sticky/PCT/starvation of a delivery '
+        'the signal, the same event object published twice while a consumer has already taken it from one queue) interleaved with the delivery threads by a seeded scheduler (sticky/PCT/starvation of a delivery '
         'thread, line and bytecode granularity in subscribe). Oracle at quiescence: for every publication and every '
         '(queue, kind) whose subscribe call returned before the publish call began: exactly one delivery of that event to '
         'that queue by the delivery thread of that kind; never more than one; no delivery to a (queue, kind) that never '
@@ -41,6 +41,16 @@ def generate(seed, stratum, tier):
       clients[c].append(['subscribe', rng.randrange(nq), rng.choice(sigs), rng.choice(['fifo', 'fifo', 'lifo', 'default']), rng.choice(['event', 'int'])])
     else:
       clients[c].append(['publish', rng.choice(sigs), rng.choice([None, None, 1, 5, 1000])])
+      r = rng.random()
+      if r < 0.15:
+        # a consumer takes what one plain queue received so far, then the same event object is published again
+        plain = [i for i, q in enumerate(queues) if q['kind'] == 'deque']
+        if plain:
+          clients[c].append(['sleep', 0.01])
+          clients[c].append(['pop', rng.choice(plain)])
+        clients[c].append(['republish'])
+      elif r < 0.25:
+        clients[c].append(['republish'])
   # the other clients wait until the fabric runs
   for c in range(1, nclients):
     clients[c].insert(0, ['sleep', 0.001])
@@ -117,8 +127,9 @@ def judge(sc, run, sim, reason, res):
     first_seq.setdefault(key, seq)
   for key, n in sorted(count.items()):
     uid, qi, kind = key
-    if n > 1:
-      res.violate('delivered-twice', {'kind': kind}, 'event %s (%s) was delivered %d times to q%d by the %s thread' % (uid, run.pubs[uid]['sig'], n, qi, kind))
+    ncalls = len(run.pubs[uid]['calls'])
+    if n > ncalls:
+      res.violate('delivered-twice', {'kind': kind}, 'event %s (%s), published %d time(s), was delivered %d times to q%d by the %s thread' % (uid, run.pubs[uid]['sig'], ncalls, n, qi, kind))
       return
     asked = [s for s in run.subs if s['q'] == qi and s['sig'] == run.pubs[uid]['sig'] and s['kind'] == kind and s['begin'] < first_seq[key]]
     if not asked:
@@ -130,15 +141,16 @@ def judge(sc, run, sim, reason, res):
   for uid, p in sorted(run.pubs.items()):
     if p['end'] is None:
       continue
-    need = set()
-    for s in run.subs:
-      if s['sig'] == p['sig'] and s['end'] is not None and s['end'] < p['begin']:
-        need.add((s['q'], s['kind']))
-    for qi, kind in sorted(need):
-      if count.get((uid, qi, kind), 0) != 1:
-        res.violate('not-delivered', {'kind': kind},
-                    'event %s (%s) published after q%d subscribed (%s) was delivered %d times to it; subscriptions in call order: %s' % (
-                      uid, p['sig'], qi, kind, count.get((uid, qi, kind), 0), [(s['q'], s['sig'], s['kind']) for s in run.subs]))
+    keys = set((s['q'], s['kind']) for s in run.subs if s['sig'] == p['sig'] and s['end'] is not None)
+    for qi, kind in sorted(keys):
+      first_sub_end = min(s['end'] for s in run.subs if s['sig'] == p['sig'] and s['end'] is not None and s['q'] == qi and s['kind'] == kind)
+      # one delivery is owed for every publish call of this event object that began after the subscription was made
+      owed = sum(1 for b, e in p['calls'] if e is not None and b > first_sub_end)
+      got = count.get((uid, qi, kind), 0)
+      if got < owed:
+        res.violate('not-delivered', {'kind': kind, 'republished': len(p['calls']) > 1},
+                    'event %s (%s) was published %d time(s) after q%d subscribed (%s) but delivered %d time(s) to it; subscriptions in call order: %s' % (
+                      uid, p['sig'], owed, qi, kind, got, [(s['q'], s['sig'], s['kind']) for s in run.subs]))
         return
 
 
